@@ -2187,7 +2187,10 @@ class ResetIndex(Elemwise):
                     # potential improvement is tiny
                     return
                 col = parent.operand("columns")
-                if col in (self.name, "index", self.frame._meta.index.name):
+                if col in (self.name, "index", self.frame._meta.index.name) or (
+                    col in self.frame._meta.index.names
+                ):
+                    # the levels of a MultiIndex become columns as well
                     return
                 if all(
                     isinstance(d(), Projection) and d().operand("columns") == col
